@@ -506,6 +506,8 @@ class Body:
                         pl = s['place']
                         if not pl['p']:
                             d[pl['l']].append((j, i, 'assign', s['rv']))
+                        elif pl['p'][0] == '*' and not (1 <= pl['l'] <= self.arg_count and False):
+                            pass  # write through a reference: the pointee changes, not the local
                         else:
                             d[pl['l']].append((j, i, 'partial', s))
                     elif s['k'] == 'setdiscr':
@@ -515,6 +517,8 @@ class Body:
                     pl = t['dest']
                     if not pl['p']:
                         d[pl['l']].append((j, None, 'call', t))
+                    elif pl['p'][0] == '*':
+                        pass
                     else:
                         d[pl['l']].append((j, None, 'partial', t))
                 elif t['k'] == 'yield':
@@ -815,6 +819,74 @@ class Body:
 
     def can_reach(self, src, dst):
         return dst in self.reachable_avoiding(None, start=src)
+
+    # -- path-sensitive reachability on one enum-typed local -------------------------
+    def _is_local_term(self, t, name):
+        t0 = t
+        while t0 is not None and t0[0] == 'let' and t0[1] != name:
+            t0 = t0[2]
+        return t0 is not None and t0[0] in ('phi', 'let', 'var', 'param') and t0[1] == name
+
+    def var_reach(self, local, all_variants, start_bb=0, start_set=None):
+        """Reachable (block -> set of possible variant sets) when tracking which variant the
+        enum-typed `local` holds: assignments of variant literals set it, switch/comparison
+        edges on it refine it, edges whose refinement is empty are infeasible."""
+        name = self.local_name(local)
+        allv = frozenset(all_variants)
+        init = frozenset(start_set) if start_set is not None else allv
+        out_edges = defaultdict(list)
+        for (s, d, fs) in self.edges():
+            out_edges[s].append((d, fs))
+
+        def transfer(bb, cur):
+            blk = self.blocks[bb]
+            for st in blk['stmts']:
+                if st['k'] == 'assign' and st['place']['l'] == local and not st['place']['p']:
+                    rt = unlet(self.rvalue_term(st['rv']))
+                    if rt is not None and rt[0] == 'agg' and rt[2] in allv:
+                        cur = frozenset([rt[2]])
+                    elif rt is not None and rt[0] == 'phi' and all(
+                            (unlet(x) or ('?',))[0] == 'agg' and unlet(x)[2] in allv for x in rt[2]):
+                        cur = frozenset(unlet(x)[2] for x in rt[2])
+                    else:
+                        cur = allv
+            t = blk['term']
+            if t['k'] == 'call' and t['dest']['l'] == local and not t['dest']['p']:
+                cur = allv
+            return cur
+
+        def refine(cur, f):
+            if f.kind == 'is' and self._is_local_term(f.term, name):
+                return cur & frozenset(f.variants)
+            if f.kind == 'bool':
+                t = unlet(f.term)
+                if t is not None and t[0] == 'binop' and t[1] in ('Eq', 'Ne'):
+                    op = t[1] if f.pol else CMP_NEG[t[1]]
+                    for a, b in ((t[2], t[3]), (t[3], t[2])):
+                        ub = unlet(b)
+                        if self._is_local_term(a, name) and ub is not None and ub[0] == 'agg' and ub[2] in allv:
+                            return (cur & frozenset([ub[2]])) if op == 'Eq' else (cur - frozenset([ub[2]]))
+            return cur
+
+        seen = defaultdict(set)
+        work = deque([(start_bb, init)])
+        seen[start_bb].add(init)
+        while work:
+            bb, cur = work.popleft()
+            after = transfer(bb, cur)
+            for (d, fs) in out_edges[bb]:
+                if fs:
+                    nxt = frozenset()
+                    for f in fs:
+                        nxt = nxt | refine(after, f)
+                else:
+                    nxt = after
+                if not nxt:
+                    continue
+                if nxt not in seen[d]:
+                    seen[d].add(nxt)
+                    work.append((d, nxt))
+        return seen
 
     # -- COUNT -----------------------------------------------------------------
     def count_paths(self, event_block_pred, cap=2):
